@@ -1,10 +1,70 @@
+"""C05 — original blocks are conserved.
+
+(1) every stage output of the real pipeline judged by the Lean decider `conserved` (shared runs, see
+    _hier.py); (2) aliasing: two graphs built from the *same* block objects — restructuring one of
+    them must leave the other one (and the shared block objects) exactly as they were, and
+    restructuring the second afterwards must give what restructuring a fresh copy gives: an input
+    block altered in place is seen by every graph that holds it.
+"""
+import random
+from harness import common, export, gen
 from harness.props import _hier
 LEVEL = _hier.LEVEL
 EXTRA_PROPS_FILES = ["Scfg/Props/C05Join.lean"]
 
 
+def aliasing_runs(ctx):
+    common.import_repo()
+    from numba_scfg.core.datastructures.scfg import SCFG
+    rng = random.Random(ctx["seed"] * 77 + 5)
+    inputs = [s for _, s in gen.graph_inputs(ctx["tier"], ctx["seed"]) if 3 <= len(s) <= 12]
+    rng.shuffle(inputs)
+    inputs = inputs[: (400 * common.boost() if ctx["tier"] == "quick" else 6000)]
+    fails = []
+    for succ in inputs:
+        base = export.mk_scfg(succ, payload="bytecode")
+        blocks = dict(base.graph)
+        g1, g2 = SCFG(dict(blocks)), SCFG(dict(blocks))
+        before = export.canonical_dump(g2)
+        snap = {k: (type(b).__name__, b.name, tuple(b._jump_targets), tuple(b.backedges), getattr(b, "begin", None), getattr(b, "end", None))
+                for k, b in blocks.items()}
+        try:
+            g1.restructure()
+        except Exception:  # noqa: BLE001
+            continue                      # C02's business
+        now = {k: (type(b).__name__, b.name, tuple(b._jump_targets), tuple(b.backedges), getattr(b, "begin", None), getattr(b, "end", None))
+               for k, b in blocks.items()}
+        if now != snap:
+            k = next(k for k in snap if snap[k] != now[k])
+            fails.append((succ, f"input block object {k} altered in place: {snap[k]} -> {now[k]}"))
+            continue
+        if export.canonical_dump(g2) != before:
+            fails.append((succ, "a second graph holding the same block objects changed when the first was restructured"))
+            continue
+        try:
+            g2.restructure()
+            fresh = export.mk_scfg(succ, payload="bytecode")
+            fresh.restructure()
+            d2 = export.canonical_dump(g2).replace(g2.region.name, "TOP")
+            df = export.canonical_dump(fresh).replace(fresh.region.name, "TOP")
+            if d2 != df:
+                fails.append((succ, "restructuring the second graph afterwards differs from restructuring a fresh copy"))
+        except Exception as e:  # noqa: BLE001
+            fails.append((succ, f"restructuring the second graph afterwards raises {type(e).__name__}"))
+    return len(inputs), fails
+
+
 def run(ctx):
-    return _hier.run(ctx, "C05")
+    res = _hier.run(ctx, "C05")
+    n, fails = aliasing_runs(ctx)
+    res["coverage"]["aliasing_runs"] = n
+    res["coverage"]["aliasing_failures"] = len(fails)
+    if fails:
+        succ, why = min(fails, key=lambda f: (len(f[0]), f[0]))
+        res["violations"].append({"signature": {"stage": "aliasing", "clauses": why.split(":")[0][:60]},
+                                  "what": f"C05 (aliasing): {why} ({len(fails)} of {n} graphs)",
+                                  "payload": {"input_succ": [list(x) for x in succ], "observed": why, "count": len(fails)}})
+    return res
 
 
 def replay(path):
